@@ -479,3 +479,110 @@ func ContainsCallTo(info *types.Info, fns ...*types.Func) NodePred {
 
 // IsReturn is a NodePred for return statements.
 func IsReturn(n ast.Node) bool { _, ok := n.(*ast.ReturnStmt); return ok }
+
+// MinMaxCall recognises a call that returns the least ("min") or the greatest
+// ("max") of its arguments: the builtins, or a two-parameter function of the
+// analysed module whose whole body is `if a OP b { return a }; return b`
+// (either orientation) — the package-level helpers that shadow the builtins
+// in package syntax are of that form, and the shape is checked, not the name.
+func MinMaxCall(p *Program, info *types.Info, call *ast.CallExpr) (string, []ast.Expr) {
+	if id, ok := ast.Unparen(call.Fun).(*ast.Ident); ok {
+		if b, ok := info.Uses[id].(*types.Builtin); ok && (b.Name() == "min" || b.Name() == "max") {
+			return b.Name(), call.Args
+		}
+	}
+	fn := Callee(info, call)
+	if fn == nil || len(call.Args) != 2 || p == nil {
+		return "", nil
+	}
+	if k := minMaxKind(p, fn); k != "" {
+		return k, call.Args
+	}
+	return "", nil
+}
+
+var minMaxMemo = map[*types.Func]string{}
+
+func minMaxKind(p *Program, fn *types.Func) string {
+	if k, ok := minMaxMemo[fn]; ok {
+		return k
+	}
+	k := minMaxKindUncached(p, fn)
+	minMaxMemo[fn] = k
+	return k
+}
+
+func minMaxKindUncached(p *Program, fn *types.Func) string {
+	fd, pk := p.DeclOf(fn)
+	if fd == nil || fd.Body == nil || pk == nil || len(fd.Body.List) < 1 || len(fd.Body.List) > 2 {
+		return ""
+	}
+	sig := fn.Type().(*types.Signature)
+	if sig.Params().Len() != 2 || sig.Results().Len() != 1 {
+		return ""
+	}
+	a, b := sig.Params().At(0), sig.Params().At(1)
+	ifs, ok := fd.Body.List[0].(*ast.IfStmt)
+	if !ok || ifs.Init != nil || len(ifs.Body.List) != 1 {
+		return ""
+	}
+	// `if c { return a }; return b`  or  `if c { return a } else { return b }`
+	var second ast.Stmt
+	switch {
+	case ifs.Else == nil && len(fd.Body.List) == 2:
+		second = fd.Body.List[1]
+	case ifs.Else != nil && len(fd.Body.List) == 1:
+		if eb, ok := ifs.Else.(*ast.BlockStmt); ok && len(eb.List) == 1 {
+			second = eb.List[0]
+		}
+	}
+	if second == nil {
+		return ""
+	}
+	retOf := func(s ast.Stmt) *types.Var {
+		rs, ok := s.(*ast.ReturnStmt)
+		if !ok || len(rs.Results) != 1 {
+			return nil
+		}
+		id, ok := ast.Unparen(rs.Results[0]).(*ast.Ident)
+		if !ok {
+			return nil
+		}
+		v, _ := pk.TypesInfo.Uses[id].(*types.Var)
+		return v
+	}
+	r1, r2 := retOf(ifs.Body.List[0]), retOf(second)
+	if r1 == nil || r2 == nil || r1 == r2 || (r1 != a && r1 != b) || (r2 != a && r2 != b) {
+		return ""
+	}
+	be, ok := ast.Unparen(ifs.Cond).(*ast.BinaryExpr)
+	if !ok {
+		return ""
+	}
+	xv, _ := ObjOf(pk.TypesInfo, be.X).(*types.Var)
+	yv, _ := ObjOf(pk.TypesInfo, be.Y).(*types.Var)
+	if xv == nil || yv == nil || xv == yv || (xv != a && xv != b) || (yv != a && yv != b) {
+		return ""
+	}
+	// normalise to "r1 OP r2"
+	op := be.Op
+	if xv != r1 {
+		switch op {
+		case token.LSS:
+			op = token.GTR
+		case token.LEQ:
+			op = token.GEQ
+		case token.GTR:
+			op = token.LSS
+		case token.GEQ:
+			op = token.LEQ
+		}
+	}
+	switch op {
+	case token.LSS, token.LEQ: // if r1 < r2 { return r1 }; return r2
+		return "min"
+	case token.GTR, token.GEQ:
+		return "max"
+	}
+	return ""
+}
